@@ -121,3 +121,25 @@ M('C17', 'neutral-try_from-reorder-checks', DDF, """        if !are_all_finite(&
             ));
         }
 """, kind='neutral')
+
+# ---------------------------------------------------------------- C12
+EDF = 'src/geom3/mesh/edges.rs'
+PAF = 'src/geom3/mesh/patches.rs'
+M('C12', 'boundary-walk-no-consume', EDF, "            next = boundary_map.remove(&next_id);", "            next = boundary_map.get(&next_id).copied();", 'TERM:geom3::mesh::edges::boundary_loops')
+M('C12', 'boundary-start-not-consumed', EDF, "        let mut next = boundary_map.remove(&start_id);", "        let mut next = boundary_map.get(&start_id).copied();", 'TERM:geom3::mesh::edges::boundary_loops')
+M('C12', 'edge_key-asymmetric', EDF, "    let y = edge[0].max(edge[1]);", "    let y = edge[1];", 'edge_key')
+M('C12', 'manifold-check-off-by-one', EDF, ".any(|(_, count)| *count > 2)", ".any(|(_, count)| *count > 3)", 'nonmanifold-predicate')
+M('C12', 'boundary-entry-wrong-count', EDF, "        if unique_edge_count[i1].1 == 1 {\n            boundary_map.insert(face_chunk[1][0], face_chunk[1][1]);", "        if unique_edge_count[i0].1 == 1 {\n            boundary_map.insert(face_chunk[1][0], face_chunk[1][1]);", 'boundary-entry')
+M('C12', 'unique-edges-unsorted', EDF, "    unique_count.sort();\n", "", 'unique_edges:sorted')
+M('C12', 'patch-lookup-one-orientation', PAF, "            let e1 = (v1, v0);", "            let e1 = (v0, v1);", 'both-orientations')
+M('C12', 'patch-queue-two-edges', PAF, """                    working_queue.push((mesh.faces()[*f1][1], mesh.faces()[*f1][2]));
+                    working_queue.push((mesh.faces()[*f1][2], mesh.faces()[*f1][0]));""", """                    working_queue.push((mesh.faces()[*f1][1], mesh.faces()[*f1][2]));""", 'queue-three-edges')
+M('C12', 'patch-push-without-remove', PAF, """                    patch.push(*f0);
+                    remaining_faces.remove(f0);""", """                    patch.push(*f0);""", 'TERM:geom3::mesh::patches::compute_patch_indices')
+M('C12', 'take-one-boundary-get', PAF, "        next = order.remove(&next)?;", "        next = *order.get(&next)?;", 'TERM:geom3::mesh::patches::take_one_boundary')
+M('C12', 'clusters-queue-without-remove', 'src/raster3.rs', "                        if indices.remove(&neighbor) {", "                        if indices.contains(&neighbor) {", 'TERM:raster3::clusters_from_sparse')
+M('C12', 'clusters-18-neighbourhood', 'src/raster3.rs', "                    for z in -1..=1 {", "                    for z in 0..=1 {", 'neighbourhood')
+M('C12', 'cylinder-rewind', 'src/geom3/mesh.rs', "            faces.push([(i * 2) as u32, (k * 2) as u32, (k * 2 + 1) as u32]);", "            faces.push([(i * 2) as u32, (k * 2 + 1) as u32, (k * 2) as u32]);", 'create_cylinder')
+M('C12', 'box-flip-face', 'src/geom3/mesh.rs', "        [2, 7, 6],", "        [2, 6, 7],", 'box_geom')
+M('C12', 'box-wrong-param', 'src/geom3/mesh.rs', "        Point3::new(width, height, 0.0),", "        Point3::new(width, depth, 0.0),", 'box_geom:lattice')
+M('C12', 'neutral-cylinder-angle-reassoc', 'src/geom3/mesh.rs', "let angle = i as f64 * 2.0 * std::f64::consts::PI / (steps as f64);", "let angle = 2.0 * std::f64::consts::PI * (i as f64) / (steps as f64);", kind='neutral')
